@@ -413,6 +413,14 @@ func (un *Unit) typeFacts(t types.Type, v Term, st *State, depth int) Term {
 
 func (un *Unit) fieldHeap(T types.Type, fieldName string) string {
 	n := "F_" + TypeKey(T) + "_" + sanitize(fieldName)
+	if _, ok := un.heapType[n]; !ok && strings.HasPrefix(fieldName, "#") {
+		if _, st := derefStruct(T); st != nil {
+			si := un.sinfo(T)
+			if i := si.fieldIndex(fieldName); i >= 0 && si.fields[i].typ != nil {
+				un.heapType[n] = si.fields[i].typ
+			}
+		}
+	}
 	if _, ok := un.heapType[n]; !ok {
 		if _, st := derefStruct(T); st != nil {
 			for i := 0; i < st.NumFields(); i++ {
